@@ -244,7 +244,10 @@ def worker(case: Dict[str, Any]) -> CaseResult:
         rec = PostRecorder(schema_ref)
         verify = case["idx"] % 2 == 0
         cfg_i = dict(cfg_full)
-        cfg_i["remote_schema_headers"] = {"Authorization": "$VF_C19_TOKEN", "X-Plain": "plain-value"}
+        # `$NAME` as a whole value names an environment variable; a dollar sign anywhere else is a literal character
+        literal_headers = {"X-Plain": "plain-value", "X-Dollar-Inside": "ab$$cd-2024", "X-Org": "org$team", "X-Trailing": "5$", "X-Braces": "a${b}c"}
+        cfg_i["remote_schema_headers"] = dict({"Authorization": "$VF_C19_TOKEN", "X-Second": "$VF_C19_OTHER"}, **literal_headers)
+        os.environ["VF_C19_OTHER"] = "other-%d" % case["idx"]
         cfg_i["remote_schema_verify_ssl"] = verify
         g_i, c_i = generate(root, "pkg_introspection", cfg_i, None, queries, recorder=rec)
         variants.append(("introspection", g_i, c_i))
@@ -254,7 +257,7 @@ def worker(case: Dict[str, Any]) -> CaseResult:
             violations.append(Violation(PROP, "one-introspection-request", "%d requests" % len(rec.calls), fl, replay_case, mech="c19:one-request"))
         else:
             call = rec.calls[0]
-            want_headers = {"Authorization": "secret-%d" % case["idx"], "X-Plain": "plain-value"}
+            want_headers = dict({"Authorization": "secret-%d" % case["idx"], "X-Second": "other-%d" % case["idx"]}, **literal_headers)
             if call["headers"] != want_headers:
                 violations.append(Violation(PROP, "headers-sent", "headers %r expected %r" % (call["headers"], want_headers), fl, replay_case, mech="c19:headers-sent"))
             if call["verify"] is not verify:
@@ -262,6 +265,38 @@ def worker(case: Dict[str, Any]) -> CaseResult:
             if call["url"] != "http://introspect.test/graphql":
                 violations.append(Violation(PROP, "url-sent", repr(call["url"]), fl, replay_case, mech="c19:url"))
             count("request_checks")
+        if case["idx"] % 3 == 0:
+            # the other strategy reads the same remote source and must put the same request on the wire (url, resolved headers, TLS flag);
+            # what it then writes is C16's matter
+            import ariadne_codegen.schema as schema_mod2
+            from ..genpkg import run_cli as _run, write_case as _write
+            rec2 = PostRecorder(schema_ref)
+            with core.Scratch() as r2:
+                conf2 = _write(r2, None, None, {"remote_schema_url": "http://introspect.test/graphql", "remote_schema_headers": cfg_i["remote_schema_headers"],
+                                               "remote_schema_verify_ssl": verify, "target_file_path": "remote_out.graphql"})
+                conf2.pop("include_comments", None)
+                saved2 = schema_mod2.httpx.post
+                schema_mod2.httpx.post = rec2
+                try:
+                    with warnings.catch_warnings():
+                        warnings.simplefilter("ignore")
+                        g_r = _run(r2, "graphqlschema", conf2)
+                finally:
+                    schema_mod2.httpx.post = saved2
+                count("graphqlschema_introspections")
+                if not g_r.ok:
+                    violations.append(Violation(PROP, "source-generates", "graphqlschema from the remote source failed: %s: %s" % (g_r.exc_type, str(g_r.exception)[:300]), fl, replay_case,
+                                                mech="c19:graphqlschema-remote:generates"))
+                elif len(rec2.calls) != 1:
+                    violations.append(Violation(PROP, "one-introspection-request", "graphqlschema strategy: %d requests" % len(rec2.calls), fl, replay_case, mech="c19:one-request"))
+                else:
+                    call2 = rec2.calls[0]
+                    want2 = dict({"Authorization": "secret-%d" % case["idx"], "X-Second": "other-%d" % case["idx"]}, **literal_headers)
+                    if call2["headers"] != want2:
+                        violations.append(Violation(PROP, "headers-sent", "graphqlschema strategy: headers %r expected %r" % (call2["headers"], want2), fl, replay_case, mech="c19:headers-sent"))
+                    if call2["verify"] is not verify:
+                        violations.append(Violation(PROP, "verify-flag-sent", "graphqlschema strategy: verify=%r expected %r" % (call2["verify"], verify), fl, replay_case, mech="c19:verify-flag"))
+                    count("request_checks")
         base_dir = g_a.package_dir
         base_files = sorted(p.name for p in base_dir.glob("*.py"))
         base_pkg = import_package(root, "pkg_file")
